@@ -108,7 +108,7 @@ def history(ctx, rng, coords, k, path):
             a = rng.choice(near) if rng.random() < 0.6 else rng.randrange(lo, hi)
             a = max(lo, min(a, hi))
             b = min(a + int(rng.expovariate(1 / 150000.0)), 2 ** 31 - 2)
-            out.append({"id": "%s%d" % (tag, i), "seqid": rng.choice(["c1", "c1", "c2"]), "s": a, "e": b, "strand": rng.choice(STRANDS), "ftype": rng.choice(TYPES)})
+            out.append({"id": "%s%d" % (tag, i), "seqid": rng.choice(["c1", "c1", "c2", "C1"]), "s": a, "e": b, "strand": rng.choice(STRANDS), "ftype": rng.choice(TYPES)})
         return out
     shift = rng.choice([0, 0, SIZES[0], SIZES[1], 3 * SIZES[2] + 5])
     base = rand_feats(25, "a", hi=2 ** 27)
@@ -291,12 +291,12 @@ def run(ctx):
                 a = rng.randrange(1, 2 ** 30)
                 b = a + int(rng.expovariate(1 / 3000000.0))
             b = min(b, 2 ** 31 - 2)
-            rf.append({"id": "r%d" % i, "seqid": rng.choice(["c1", "c1", "c2"]), "s": a, "e": b,
+            rf.append({"id": "r%d" % i, "seqid": rng.choice(["c1", "c1", "c2", "C1"]), "s": a, "e": b,
                        "strand": rng.choice(STRANDS), "ftype": rng.choice(TYPES)})
         rdb, rall = make_db(rf)
         dbs.append(rall)
         qc = sorted(set([f["s"] for f in rf] + [f["e"] for f in rf] + [f["s"] - 1 for f in rf if f["s"] > 1] + [f["e"] + 1 for f in rf] + coords))
-        for q in gen_queries(rng, qc, 400, 250, ["c1", "c2"]):
+        for q in gen_queries(rng, qc, 400, 250, ["c1", "c2", "C1"]):       # seqids that differ only in letter case are different sequences
             events.append({"db": len(dbs), "q": q, "ids": execute(rdb, q)})
     # --- D3: histories on one handle (file databases and :memory:)
     nh = 0
@@ -336,7 +336,7 @@ def replay(ctx, rec):
     if "raw_handle" in c:
         return H.replay(ctx, rec, "region")
     if "q" not in c:
-        return True
+        raise core.CannotReplay("no executable case in this replay file")
     if "hseed" in c["q"]:       # an event of a handle history: the whole history is run again from its seed
         hd, he, _ = history(ctx, random.Random(c["q"]["hseed"]), boundary_coords(), 0, ctx.path("replay_h.db") if c["q"]["hfile"] else ":memory:")
         return any(cl != "drift" for _, cl in judge(ctx, hd, he, "replay"))
